@@ -415,13 +415,13 @@ pub fn run(ctx: &Ctx) -> i32 {
             let mut t = [2usize, 4, 8, 16, 32][(round % 5) as usize];
             let rng0 = Rng::new(ctx.seed, "C15/concurrent", round);
             let mut shared: Vec<usize> = (0..rng0.range(1, 3)).map(|_| rng0.below(nfiles)).collect();
-            // every fifth round: 32 or 64 threads, all of them on deeply nested files (many deep walks in flight at once)
+            // every fifth round: 64 or 96 threads, all of them on deeply nested files (many deep walks in flight at once)
             if round % 5 == 4 {
                 let deepest: Vec<usize> = (0..nfiles).filter(|i| fs.names[*i].starts_with("deep:") && fs.names[*i].ends_with(":300")).collect();
                 let deep: Vec<usize> = if deepest.is_empty() { (0..nfiles).filter(|i| fs.names[*i].starts_with("deep:")).collect() } else { deepest };
                 if !deep.is_empty() {
                     shared = (0..2).map(|_| *rng0.pick(&deep)).collect();
-                    t = if round % 10 == 9 { 64 } else { 32 };
+                    t = if round % 10 == 9 { 96 } else { 64 };
                     acc.cov("concurrent:all-threads-on-deeply-nested-files");
                 }
             }
@@ -433,12 +433,13 @@ pub fn run(ctx: &Ctx) -> i32 {
                     let shared = shared.clone();
                     let accs = &accs;
                     let _ = std::thread::Builder::new().stack_size(256 << 20).spawn_scoped(s, move || {
-                        let rng = Rng::new(ctx.seed, "C15/concurrent-thread", round * 64 + ti as u64);
+                        let rng = Rng::new(ctx.seed, "C15/concurrent-thread", round * 128 + ti as u64);
                         let mut a = Acc::default();
                         a.cur_workload = "concurrent".into();
                         a.cur_k = round;
                         barrier.wait();
-                        for _ in 0..ctx.tier.pick(40, 120) {
+                        let calls = if t >= 64 { ctx.tier.pick(80, 160) } else { ctx.tier.pick(40, 120) };
+                        for _ in 0..calls {
                             let fi = *rng.pick(&shared);
                             let det = rng.pick(&dets::ALL);
                             observe(fsr, fi, det, rng.below(4), &format!("concurrent-{}-threads", t), &mut a);
